@@ -3,3 +3,6 @@ import ModVerif.Basic.Bytes
 import ModVerif.Model.Semver
 import ModVerif.Props.C04
 import ModVerif.Tie.Semver
+import ModVerif.Model.Dirhash
+import ModVerif.Props.C19
+import ModVerif.Tie.Dirhash
